@@ -1027,7 +1027,7 @@ def panic_sites(f):
 UNWRAP_NAMES = {'as_mut', 'as_ref', 'ok_or', 'ok_or_else', 'unwrap', 'expect', 'clone', 'deref',
                 'deref_mut', 'borrow', 'borrow_mut', 'as_slice', 'as_mut_slice', 'to_vec',
                 'as_deref', 'as_deref_mut', 'unwrap_or_default', 'iter', 'iter_mut', 'into_iter',
-                'to_owned', 'into', 'as_str', 'as_bytes', 'as_path'}
+                'to_owned', 'into', 'as_str', 'as_bytes', 'as_path', 'take'}
 
 
 def access_path(e):
@@ -1065,6 +1065,10 @@ def access_path(e):
             e = e[1]
             continue
         if k == 'call' and e[2] and (e[4].get('name') in UNWRAP_NAMES or e[1] in ('branch', 'poll')):
+            e = e[2][0]
+            continue
+        if k == 'call' and e[2] and e[4].get('name') in ('get', 'get_mut', 'index', 'index_mut', 'get_unchecked'):
+            parts.append('[]')
             e = e[2][0]
             continue
         if k == 'call' and not e[2]:
@@ -1178,4 +1182,46 @@ def agg_sites(f, adt_rx, variant=None):
             if s['k'] == 'assign' and s['rv']['k'] == 'agg' and s['rv'].get('ak') == 'adt':
                 if rx.search(s['rv']['adt']) and (variant is None or s['rv']['v'] == variant):
                     out.append((bi, si, f.expr_rvalue(s['rv'])))
+    return out
+
+
+def place_fields(p):
+    """[(adt, field_name)] along a raw place"""
+    return [(x.get('adt'), x.get('n')) for x in p.get('p', []) if x['k'] == 'field']
+
+
+def field_touches(f, adt, field):
+    """[(bb, idx, kind)] where kind in {'store','ref_mut','ref','read'} for every statement in f
+    that stores to / borrows / reads a place going through adt.field"""
+    out = []
+    for bi, b in enumerate(f.blocks):
+        if b.get('cleanup'):
+            continue
+        for si, s in enumerate(b['s']):
+            if s['k'] != 'assign':
+                continue
+            if (adt, field) in place_fields(s['lhs']):
+                # a store *into* the field or below it
+                out.append((bi, si, 'store'))
+            rv = s['rv']
+            if rv['k'] in ('ref', 'rawptr') and (adt, field) in place_fields(rv['place']):
+                out.append((bi, si, 'ref_mut' if rv.get('mut') or rv['k'] == 'rawptr' else 'ref'))
+            elif rv['k'] == 'use':
+                p = rv['op'].get('cp') or rv['op'].get('mv')
+                if p and (adt, field) in place_fields(p):
+                    out.append((bi, si, 'read'))
+            elif rv['k'] == 'agg' and rv.get('ak') == 'adt' and rv['adt'] == adt and field in rv.get('fields', []):
+                out.append((bi, si, 'init'))
+    return out
+
+
+def struct_by_shape(F, pred):
+    """ADT paths of local structs whose {field: type} map satisfies pred"""
+    out = []
+    for p, a in F.adts.items():
+        if a['kind'] != 'Struct' or not a['variants']:
+            continue
+        fields = {x['name']: x['ty'] for x in a['variants'][0]['fields']}
+        if pred(fields):
+            out.append(p)
     return out
